@@ -45,17 +45,27 @@ fn fold(op: BinOperator, a: Variable, b: Variable) -> Option<bool> {
 #[kani::proof]
 #[kani::unwind(4)]
 #[kani::stub(alloc::fmt::format, crate::verif_common::stub_format)]
-pub fn eq_ne_operators_on_arrays() {
+pub fn eq_ne_operators_run_time() {
+    crate::verif_model::set_order(0);
     let (x, p): (i64, i64) = (kani::any(), kani::any());
     let mk_a = || arr_t(Type::Int | Type::Float, vec![Variable::Int(x)]);
     let mk_b = || arr_t(Type::Int, vec![Variable::Int(p)]);
     assert!(run(BinOperator::Equal, mk_a(), mk_b()) == Some(x == p));
     assert!(run(BinOperator::NotEqual, mk_a(), mk_b()) == Some(x != p));
-    assert!(fold(BinOperator::Equal, mk_a(), mk_b()) == Some(x == p));
-    assert!(fold(BinOperator::NotEqual, mk_a(), mk_b()) == Some(x != p));
     // any-typed / differently typed operands of different kinds
     assert!(run(BinOperator::Equal, Variable::Int(x), arr_t(Type::Any, vec![Variable::Int(x)])) == Some(false));
-    assert!(run(BinOperator::NotEqual, Variable::Int(x), Variable::Float(1.0)) == Some(true));
     kani::cover!(x == p);
     kani::cover!(x != p);
+}
+#[kani::proof]
+#[kani::unwind(4)]
+#[kani::stub(alloc::fmt::format, crate::verif_common::stub_format)]
+pub fn eq_ne_operators_folded() {
+    crate::verif_model::set_order(0);
+    let (x, p): (i64, i64) = (kani::any(), kani::any());
+    let mk_a = || arr_t(Type::Int | Type::Float, vec![Variable::Int(x)]);
+    let mk_b = || arr_t(Type::Int, vec![Variable::Int(p)]);
+    assert!(fold(BinOperator::Equal, mk_a(), mk_b()) == Some(x == p));
+    assert!(fold(BinOperator::NotEqual, mk_a(), mk_b()) == Some(x != p));
+    kani::cover!(x == p);
 }
